@@ -198,6 +198,7 @@ func C18(c *runner.Cfg) *report.Result {
 	}()
 	var bg sync.WaitGroup
 	var exchanges atomic.Int64
+	var churnExchanges, churnCloses atomic.Int64
 	stopBG := make(chan struct{})
 	conn, st := mpx.Connect(noCtx, addr, logger, Opts(4096, 0, 0, 0, true))
 	if !st.OK() {
@@ -264,6 +265,92 @@ func C18(c *runner.Cfg) *report.Result {
 				cl.Conn(async.TimeoutContext(time.Millisecond))
 			}
 			cl.Close()
+		}
+	}()
+	// connection churn: callers take connections and channels from a shared client (4 slots, channel
+	// target 1, so the list of connections keeps changing) while another goroutine closes whatever
+	// connection it is handed: the client's connection list is read by callers and edited by the
+	// close notifications at the same time
+	bg.Add(1)
+	go func() {
+		defer bg.Done()
+		echo := mpx.HandleFunc(func(ctx mpx.Context, ch mpx.Channel) status.Status {
+			for {
+				b, st := ch.Receive(ctx)
+				if !st.OK() {
+					return status.OK
+				}
+				if st := ch.Send(ctx, b); !st.OK() {
+					return status.OK
+				}
+			}
+		})
+		churnLog := netx.NewRecLogger() // closed connections are logged as errors; only panics and races are judged
+		es, eaddr, err := StartServer(echo, churnLog, mpx.Default())
+		if err != nil {
+			return
+		}
+		defer StopServer(es)
+		o := mpx.Default()
+		o.ClientMaxConns, o.ClientConnChannels = 4, 1
+		cl := mpx.NewClient(eaddr, mpx.ClientMode_OnDemand, churnLog, o)
+		defer cl.Close()
+		rounds := c.N(300, 6000)
+		if c.Variant == "race" {
+			rounds = c.N(150, 1500)
+		}
+		var cw sync.WaitGroup
+		var stop atomic.Bool
+		for g := 0; g < 4; g++ {
+			cw.Add(1)
+			go func(g int) {
+				defer cw.Done()
+				for k := 0; !stop.Load(); k++ {
+					pv, stack := runner.Catch(func() {
+						ctx := async.TimeoutContext(2 * time.Second)
+						defer ctx.Free()
+						ch, st := cl.Channel(ctx)
+						if !st.OK() {
+							return
+						}
+						defer ch.Free()
+						msg := []byte{byte(g), byte(k), byte(k >> 8), 0xC1, 0x8C}
+						if st := ch.Send(ctx, msg); !st.OK() {
+							return
+						}
+						if b, st := ch.Receive(ctx); st.OK() {
+							churnExchanges.Add(1)
+							if string(b) != string(msg) {
+								res.Violate("c18:churn:wrong-echo", fmt.Sprintf("connection churn: sent %x, the echo is %x", msg, b), nil)
+							}
+						}
+					})
+					if pv != nil {
+						res.Violate("c18:churn:"+runner.PanicKey(pv, stack), fmt.Sprintf("Client.Channel / Send / Receive panicked while connections of the same client were being closed: %v", pv), runner.TrimStack(stack))
+						return
+					}
+				}
+			}(g)
+		}
+		for k := 0; k < rounds && !c.Abort.Load(); k++ {
+			pv, stack := runner.Catch(func() {
+				ctx := async.TimeoutContext(2 * time.Second)
+				defer ctx.Free()
+				if cn, st := cl.Conn(ctx); st.OK() {
+					cn.Close()
+					churnCloses.Add(1)
+				}
+			})
+			if pv != nil {
+				res.Violate("c18:churn:"+runner.PanicKey(pv, stack), fmt.Sprintf("Client.Conn panicked while connections of the same client were being closed: %v", pv), runner.TrimStack(stack))
+				break
+			}
+			time.Sleep(time.Duration(200+(k%7)*300) * time.Microsecond)
+		}
+		stop.Store(true)
+		if !WaitTimeout(&cw, Watchdog) {
+			res.Violate("c18:churn:callers-blocked", fmt.Sprintf("callers of a client whose connections were being closed did not return within %v:\n%s", Watchdog, Goroutines(6)), nil)
+			c.Abort.Store(true)
 		}
 	}()
 	// server life cycles (start/stop racing with the accept loop) share the process as well
@@ -374,6 +461,8 @@ func C18(c *runner.Cfg) *report.Result {
 	res.Count("failing_programs", failing.Load())
 	res.Count("rpc_request_builders_checked", reqBuilt.Load())
 	res.Count("exchanges", exchanges.Load())
+	res.Count("churn_connections_closed_under_callers", churnCloses.Load())
+	res.Count("churn_exchanges", churnExchanges.Load())
 	res.Count("delivery_messages", d.recv[0].Load()+d.recv[1].Load())
 	res.Observe("goroutines", G)
 	res.Observe("hook_hits", hooks.Hits())
